@@ -1,4 +1,5 @@
 CONSTANTS
+  AVals = {0, 10}
   Feats = {1, 2, 3, 4}
   Levels = {1, 2, 3}
   NBests = {1, 2, 3, 4}
